@@ -153,6 +153,9 @@ func c04RunF(L int, tcp bool, prefix int, consumerModes int, failAcks int) func(
 			}
 		}
 		// mode 1: never read until the end; then drain (all modes)
+		if mode == 3 { // as mode 1, but the application stays away for longer than every timeout of the client
+			mc.Sleep(1000 * ms)
+		}
 		for got < accepted && read() {
 		}
 		// anything delivered beyond what the model accepts?
@@ -321,10 +324,10 @@ func init() {
 	register("both", &h.Scenario{Name: "C04-tcp-stream4-default-timings", Prop: "C04", P: 0, F: 0, D: -1, Run: c04RunF(4, true, 0, 2, -1), Check: c04Oracle(true)})
 	register("both", &h.Scenario{Name: "C04-udp-stream4-default-timings", Prop: "C04", P: 0, F: 0, D: -1, Run: c04RunF(4, false, 0, 2, -1), Check: c04Oracle(false)})
 	register("both", &h.Scenario{Name: "C04-udp-stream4-ack-write-fails", Prop: "C04", P: 0, F: 2, D: -1, Run: c04RunF(4, false, 0, 2, 2), Check: c04Oracle(false)})
-	register("both", &h.Scenario{Name: "C04-udp-stream4", Prop: "C04", P: 1, F: 0, D: 1, Run: c04Run(4, false, 0, 3), Check: c04Oracle(false)})
+	register("both", &h.Scenario{Name: "C04-udp-stream4", Prop: "C04", P: 1, F: 0, D: 1, Run: c04Run(4, false, 0, 4), Check: c04Oracle(false)})
 	register("quick", &h.Scenario{Name: "C04-udp-stream5-p0", Prop: "C04", P: 0, F: 0, D: 0, Run: c04Run(5, false, 0, 3), Check: c04Oracle(false)})
 	register("both", &h.Scenario{Name: "C04-udp-wrap254+stream3", Prop: "C04", P: 1, F: 0, D: 1, Run: c04Run(3, false, 254, 2), Check: c04Oracle(false)})
-	register("both", &h.Scenario{Name: "C04-tcp-stream4", Prop: "C04", P: 1, F: 0, D: 1, Run: c04Run(4, true, 0, 3), Check: c04Oracle(true)})
+	register("both", &h.Scenario{Name: "C04-tcp-stream4", Prop: "C04", P: 1, F: 0, D: 1, Run: c04Run(4, true, 0, 4), Check: c04Oracle(true)})
 	register("both", &h.Scenario{Name: "C04-udp-flat1000", Prop: "C04", P: 0, F: 0, D: -1, Run: c04Run(0, false, 1000, 1), Check: c04Oracle(false)})
 	register("thorough", &h.Scenario{Name: "C04-udp-stream6", Prop: "C04", P: 1, F: 0, D: 1, Run: c04Run(6, false, 0, 3), Check: c04Oracle(false)})
 	register("thorough", &h.Scenario{Name: "C04-udp-stream4-d2", Prop: "C04", P: 2, F: 0, D: 2, Run: c04Run(4, false, 0, 3), Check: c04Oracle(false)})
